@@ -1,9 +1,13 @@
 (* C03 -- proofs about the raw gateway model: the sender (shared with SLIP through [xform]),
    the two receive modes, and the end-to-end theorems for the raw gateway. *)
-From Coq Require Import List NArith ZArith Bool Lia.
+From Coq Require Import List NArith ZArith Bool Lia ZifyBool.
 From Muscle Require Import Gen.Consts Gw.GwBase Gw.GwLemmas Gw.RawModel Gw.TransportProofs.
 Import ListNotations.
 Local Open Scope N_scope.
+
+Local Arguments skipn : simpl never.
+Local Arguments firstn : simpl never.
+Local Arguments nth : simpl never.
 
 Definition nonempty (c : bytes) : Prop := c <> [].
 
@@ -70,13 +74,13 @@ Section RawSend.
     - (* select the next chunk *)
       destruct (nth_error cs (Z.to_nat (rs_idx st1 + 1))) as [c|] eqn:En.
       + (* chunk found *)
-        set (st2 := mkRS (rs_q st1) (rs_cur st1) (rs_idx st1 + 1) 0 (Z.of_N (blen c))) in *.
+        set (st2 := mkRS (rs_q st1) (Some cs) (rs_idx st1 + 1) 0 (Z.of_N (blen c))) in *.
         assert (Hidx : (-1 <= rs_idx st1)%Z) by (destruct Hpos as [[_ ->]|[[? ?] _]]; lia).
         assert (Hc : nth (Z.to_nat (rs_idx st1 + 1)) cs [] = c) by (eapply nth_error_nth'; eauto).
         assert (Hcne : c <> []).
         { rewrite Forall_forall in Hne. apply Hne. eapply nth_error_In; eauto. }
         assert (Hwf2 : rs_wf st2).
-        { unfold rs_wf, st2. cbn. rewrite Ec1. split; auto. right.
+        { unfold rs_wf, st2. cbn. split; auto. right.
           assert (Z.to_nat (rs_idx st1 + 1) < length cs)%nat by (apply nth_error_Some; congruence).
           rewrite Hc. lia. }
         assert (Hrem2 : rs_rem st1 = rs_rem st2).
@@ -96,24 +100,25 @@ Section RawSend.
         (* the write *)
         assert (Hlt : (rs_off st2 <? rs_len st2)%Z = true).
         { unfold st2; cbn. pose proof (blen_pos _ Hcne). lia. }
-        fold st2 in H. rewrite Hlt in H.
+        rewrite Hlt in H.
         destruct (io_write (take (N.min maxb (Z.to_N (rs_len st2) - Z.to_N (rs_off st2))) (drop (Z.to_N (rs_off st2)) (rs_chunk st2))) scr) as [x scr'] eqn:Ew.
         assert (Hchunk : rs_chunk st2 = c).
-        { unfold rs_chunk, st2. cbn. rewrite Ec1. exact Hc. }
+        { unfold rs_chunk, st2. cbn [rs_cur rs_idx]. exact Hc. }
         apply io_write_take in Ew. destruct Ew as (Hd & Hbx & _).
         destruct (0 <? blen x) eqn:Epos.
         * eapply IH in H.
-          2:{ unfold rs_wf, st2 in *. cbn in *. rewrite Ec1 in *. split; auto. right.
+          2:{ unfold rs_wf, st2 in *. cbn [rs_cur rs_idx rs_off rs_len] in *. split; auto. right.
               destruct Hwf2 as [_ [[? ?]|[Hi [Hl Ho]]]]; [lia|].
               split; auto. split; auto. rewrite Hchunk, blen_drop in Hbx. lia. }
           destruct H as (Hwf' & y & Hacc & Hrem). split; auto.
           exists (x ++ y). split; [now rewrite Hacc, app_assoc|].
           rewrite <- app_assoc, <- Hrem.
-          unfold rs_rem, st2. cbn. rewrite Ec1, Hc.
-          change (0 <? 0)%Z with false. cbn [Z.to_N].
+          unfold rs_rem, st2. cbn [rs_cur rs_idx rs_off rs_len rs_q]. rewrite Hc.
+          change (0 <? 0)%Z with false. change (Z.to_N 0) with 0.
           assert (E : (0 + Z.of_N (blen x) <? 0)%Z = false) by lia. rewrite E.
           rewrite !app_assoc. f_equal. f_equal.
-          rewrite Hchunk in Hd. cbn [rs_off st2 Z.to_N] in Hd. rewrite drop_0 in *.
+          rewrite Hchunk in Hd. unfold st2 in Hd. cbn [rs_off] in Hd. change (Z.to_N 0) with 0 in Hd.
+          rewrite drop_0 in *.
           replace (Z.to_N (0 + Z.of_N (blen x))) with (blen x) by lia. exact Hd.
         * inversion H; subst. split; auto. exists []. now rewrite app_nil_r.
       + (* no more chunks: Message done *)
@@ -155,4 +160,426 @@ Section RawSend.
         * unfold rs_wf. rewrite Ec1. split; auto.
         * exists []. now rewrite app_nil_r.
   Qed.
+
+  (* ---- DoOutput as a whole *)
+  Lemma r_do_output_spec st maxb scr st' x :
+    rs_wf st -> r_do_output xform st maxb scr = (st', x) ->
+    rs_wf st' /\ rs_rem st = x ++ rs_rem st'.
+  Proof.
+    unfold r_do_output. intros Hwf H.
+    destruct (r_out_spec _ _ _ _ _ _ _ Hwf H) as (Hwf' & y & Hy & Hrem).
+    cbn in Hy. subst y. auto.
+  Qed.
+
+  Definition rs_m (st : rsend) : nat :=
+    (length (rs_q st) + match rs_cur st with Some _ => 1 | None => 0 end)%nat.
+
+  (* a productive call writes at least one byte while bytes remain *)
+  Lemma r_out_progress fuel : forall st maxb scr acc st' acc',
+    rs_wf st -> (rs_m st < fuel)%nat -> rs_rem st <> [] -> 1 <= maxb -> 1 <= io_k scr ->
+    r_out xform fuel st maxb scr acc = (st', acc') -> (length acc < length acc')%nat.
+  Proof.
+    induction fuel as [|fuel IH]; intros st maxb scr acc st' acc' Hwf Hf Hrem Hm Hk H; [lia|].
+    cbn [r_out] in H.
+    set (st1 := match rs_cur st with
+                | Some _ => st
+                | None => match rs_q st with
+                          | [] => mkRS [] None (-1) (-1) (-1)
+                          | m :: q => mkRS q (Some (xform m)) (-1) (-1) (-1)
+                          end
+                end) in *.
+    assert (H1 : rs_wf st1 /\ rs_rem st1 = rs_rem st /\ (rs_m st1 <= rs_m st)%nat /\
+                 (rs_cur st1 = None -> rs_q st1 = [])).
+    { subst st1. destruct (rs_cur st) eqn:Ec.
+      - repeat split; auto. congruence.
+      - destruct (rs_q st) as [|m q] eqn:Eq.
+        + split; [exact I|]. split; [unfold rs_rem; cbn; rewrite Ec, Eq; reflexivity|].
+          split; [unfold rs_m; cbn; lia|]. reflexivity.
+        + split; [|split; [|split]].
+          * unfold rs_wf. cbn. split; [apply xform_ne|]. left. lia.
+          * unfold rs_rem. cbn. rewrite Ec, Eq. reflexivity.
+          * unfold rs_m. cbn. rewrite Ec, Eq. cbn. lia.
+          * cbn. discriminate. }
+    destruct H1 as (Hwf1 & Hrem1 & Hm1 & Hq1). rewrite <- Hrem1 in Hrem. clear Hrem1 Hwf.
+    assert (Hf1 : (rs_m st1 < S fuel)%nat) by lia. clear Hf Hm1. clearbody st1.
+    destruct (rs_cur st1) as [cs|] eqn:Ec1.
+    2:{ exfalso. apply Hrem. unfold rs_rem. rewrite Ec1, (Hq1 eq_refl). reflexivity. }
+    clear Hq1.
+    unfold rs_wf in Hwf1. rewrite Ec1 in Hwf1. destruct Hwf1 as [Hne Hpos].
+    assert (Hlen_acc : forall (a x y : bytes), x <> [] -> (length a < length ((a ++ x) ++ y))%nat).
+    { intros a x y Hx. rewrite !app_length. destruct x; [contradiction|cbn; lia]. }
+    destruct ((rs_off st1 <? 0) || (rs_len st1 <=? rs_off st1))%Z eqn:Esel.
+    - destruct (nth_error cs (Z.to_nat (rs_idx st1 + 1))) as [c|] eqn:En.
+      + set (st2 := mkRS (rs_q st1) (Some cs) (rs_idx st1 + 1) 0 (Z.of_N (blen c))) in *.
+        assert (Hc : nth (Z.to_nat (rs_idx st1 + 1)) cs [] = c) by (eapply nth_error_nth'; eauto).
+        assert (Hcne : c <> []).
+        { rewrite Forall_forall in Hne. apply Hne. eapply nth_error_In; eauto. }
+        assert (Hlt : (rs_off st2 <? rs_len st2)%Z = true).
+        { unfold st2; cbn. pose proof (blen_pos _ Hcne). lia. }
+        rewrite Hlt in H.
+        destruct (io_write (take (N.min maxb (Z.to_N (rs_len st2) - Z.to_N (rs_off st2))) (drop (Z.to_N (rs_off st2)) (rs_chunk st2))) scr) as [x scr'] eqn:Ew.
+        assert (Hchunk : rs_chunk st2 = c) by (unfold rs_chunk, st2; cbn [rs_cur rs_idx]; exact Hc).
+        apply io_write_take in Ew. destruct Ew as (Hd & Hbx & _).
+        rewrite Hchunk, blen_drop in Hbx. unfold st2 in Hbx. cbn [rs_off rs_len] in Hbx.
+        pose proof (blen_pos _ Hcne) as Hcp.
+        assert (Hxp : 0 < blen x) by lia.
+        assert (E : (0 <? blen x) = true) by lia. rewrite E in H.
+        assert (Hxne : x <> []) by (intros ->; cbn in Hxp; lia).
+        apply r_out_spec in H.
+        * destruct H as (_ & y & -> & _). apply Hlen_acc; auto.
+        * unfold rs_wf, st2. cbn [rs_cur rs_idx rs_off rs_len]. split; auto. right.
+          assert (Z.to_nat (rs_idx st1 + 1) < length cs)%nat by (apply nth_error_Some; congruence).
+          assert (Hidx : (-1 <= rs_idx st1)%Z) by (destruct Hpos as [[_ ->]|[[? ?] _]]; lia).
+          rewrite Hc. lia.
+      + eapply IH in H; eauto.
+        * unfold rs_wf. cbn. exact I.
+        * unfold rs_m in *. cbn. rewrite Ec1 in Hf1. lia.
+        * intros Hr. apply Hrem. unfold rs_rem in *. cbn in Hr. rewrite Ec1.
+          destruct Hpos as [[Hoff Hi]|[[Hi1 Hi2] [Hlen Hoff]]].
+          -- assert (E : (rs_off st1 <? 0)%Z = true) by lia. rewrite E.
+             rewrite Hi in En. change (Z.to_nat (-1 + 1)) with 0%nat in En.
+             destruct cs; [exact Hr|discriminate].
+          -- assert (E : (rs_off st1 <? 0)%Z = false) by lia. rewrite E.
+             assert (Hoff' : rs_off st1 = rs_len st1) by lia.
+             rewrite drop_all by (rewrite Hoff', Hlen; lia). cbn [app].
+             replace (S (Z.to_nat (rs_idx st1))) with (Z.to_nat (rs_idx st1 + 1)) by lia.
+             rewrite (skipn_nth_none _ _ En). exact Hr.
+    - destruct Hpos as [[Hoff Hi]|[[Hi1 Hi2] [Hlen Hoff]]]; [lia|].
+      assert (Hlt : (rs_off st1 <? rs_len st1)%Z = true) by lia.
+      rewrite Hlt in H.
+      destruct (io_write (take (N.min maxb (Z.to_N (rs_len st1) - Z.to_N (rs_off st1))) (drop (Z.to_N (rs_off st1)) (rs_chunk st1))) scr) as [x scr'] eqn:Ew.
+      assert (Hchunk : rs_chunk st1 = nth (Z.to_nat (rs_idx st1)) cs []).
+      { unfold rs_chunk. rewrite Ec1. reflexivity. }
+      apply io_write_take in Ew. destruct Ew as (Hd & Hbx & _).
+      rewrite Hchunk, blen_drop in Hbx.
+      assert (Hxp : 0 < blen x) by lia.
+      assert (E : (0 <? blen x) = true) by lia. rewrite E in H.
+      assert (Hxne : x <> []) by (intros ->; cbn in Hxp; lia).
+      apply r_out_spec in H.
+      + destruct H as (_ & y & -> & _). apply Hlen_acc; auto.
+      + unfold rs_wf. cbn [rs_cur rs_idx rs_off rs_len]. rewrite Ec1. split; auto. right.
+        split; auto. split; auto. lia.
+  Qed.
+
+  Lemma r_do_output_progress st maxb scr st' x :
+    rs_wf st -> rs_rem st <> [] -> 1 <= maxb -> 1 <= io_k scr ->
+    r_do_output xform st maxb scr = (st', x) -> x <> [].
+  Proof.
+    unfold r_do_output. intros Hwf Hrem Hm Hk H.
+    eapply r_out_progress in H; eauto.
+    - intros ->. cbn in H. lia.
+    - unfold rs_m. destruct (rs_cur st); lia.
+  Qed.
+
+  (* ---- fuel adequacy: the fuel of r_do_output is never the reason a call ends *)
+  Lemma r_out_fuel_enough fuel : forall st maxb scr acc,
+    rs_wf st -> (length scr + rs_m st < fuel)%nat ->
+    r_out xform fuel st maxb scr acc = r_out xform (S fuel) st maxb scr acc.
+  Proof.
+    induction fuel as [|fuel IH]; intros st maxb scr acc Hwf Hf; [lia|].
+    remember (S fuel) as f1 eqn:Ef1.
+    rewrite Ef1 at 1. cbn [r_out].
+    set (st1 := match rs_cur st with
+                | Some _ => st
+                | None => match rs_q st with
+                          | [] => mkRS [] None (-1) (-1) (-1)
+                          | m :: q => mkRS q (Some (xform m)) (-1) (-1) (-1)
+                          end
+                end) in *.
+    assert (H1 : rs_wf st1 /\ (rs_m st1 <= rs_m st)%nat).
+    { subst st1. destruct (rs_cur st) eqn:Ec; [auto|].
+      destruct (rs_q st) as [|m q] eqn:Eq.
+      - split; [exact I|]. unfold rs_m; cbn; lia.
+      - split.
+        + unfold rs_wf. cbn. split; [apply xform_ne|]. left. lia.
+        + unfold rs_m. cbn. rewrite Ec, Eq. cbn. lia. }
+    destruct H1 as (Hwf1 & Hm1).
+    assert (Hf1 : (length scr + rs_m st1 < S fuel)%nat) by lia. clear Hf Hm1 Hwf. clearbody st1.
+    destruct (rs_cur st1) as [cs|] eqn:Ec1; [|reflexivity].
+    unfold rs_wf in Hwf1. rewrite Ec1 in Hwf1. destruct Hwf1 as [Hne Hpos].
+    assert (Hscr : forall d x scr', io_write d scr = (x, scr') -> (0 <? blen x) = true -> (S (length scr') <= length scr)%nat).
+    { intros d x scr' Hw Hx. apply io_write_spec in Hw. destruct Hw as (_ & Hb & ->).
+      destruct scr; cbn in *; [|lia]. rewrite N.min_0_r in Hb. lia. }
+    destruct ((rs_off st1 <? 0) || (rs_len st1 <=? rs_off st1))%Z eqn:Esel.
+    - destruct (nth_error cs (Z.to_nat (rs_idx st1 + 1))) as [c|] eqn:En.
+      + set (st2 := mkRS (rs_q st1) (Some cs) (rs_idx st1 + 1) 0 (Z.of_N (blen c))) in *.
+        destruct (rs_off st2 <? rs_len st2)%Z eqn:Hlt; [|reflexivity].
+        destruct (io_write (take (N.min maxb (Z.to_N (rs_len st2) - Z.to_N (rs_off st2))) (drop (Z.to_N (rs_off st2)) (rs_chunk st2))) scr) as [x scr'] eqn:Ew.
+        destruct (0 <? blen x) eqn:Ex; [|reflexivity].
+        pose proof (Hscr _ _ _ Ew Ex) as Hl.
+        assert (Hc : nth (Z.to_nat (rs_idx st1 + 1)) cs [] = c) by (eapply nth_error_nth'; eauto).
+        apply io_write_take in Ew. destruct Ew as (Hd & Hbx & _).
+        apply IH.
+        * unfold rs_wf, st2. cbn [rs_cur rs_idx rs_off rs_len]. split; auto. right.
+          assert (Z.to_nat (rs_idx st1 + 1) < length cs)%nat by (apply nth_error_Some; congruence).
+          assert (Hidx : (-1 <= rs_idx st1)%Z) by (destruct Hpos as [[_ ->]|[[? ?] _]]; lia).
+          rewrite Hc.
+          assert (Hchunk : rs_chunk st2 = c) by (unfold rs_chunk, st2; cbn [rs_cur rs_idx]; exact Hc).
+          rewrite Hchunk, blen_drop in Hbx. unfold st2 in Hbx. cbn [rs_off rs_len] in Hbx. lia.
+        * unfold rs_m, st2 in *. cbn [rs_q rs_cur] in *. rewrite Ec1 in Hf1. lia.
+      + apply IH.
+        * exact I.
+        * unfold rs_m in *. cbn [rs_q rs_cur]. rewrite Ec1 in Hf1. lia.
+    - destruct (rs_off st1 <? rs_len st1)%Z eqn:Hlt; [|reflexivity].
+      destruct (io_write (take (N.min maxb (Z.to_N (rs_len st1) - Z.to_N (rs_off st1))) (drop (Z.to_N (rs_off st1)) (rs_chunk st1))) scr) as [x scr'] eqn:Ew.
+      destruct (0 <? blen x) eqn:Ex; [|reflexivity].
+      pose proof (Hscr _ _ _ Ew Ex) as Hl.
+      apply io_write_take in Ew. destruct Ew as (Hd & Hbx & _).
+      destruct Hpos as [[Hoff Hi]|[[Hi1 Hi2] [Hlen Hoff]]]; [lia|].
+      apply IH.
+      + unfold rs_wf. cbn [rs_cur rs_idx rs_off rs_len]. rewrite Ec1. split; auto. right.
+        split; auto. split; auto.
+        assert (Hchunk : rs_chunk st1 = nth (Z.to_nat (rs_idx st1)) cs []) by (unfold rs_chunk; rewrite Ec1; reflexivity).
+        rewrite Hchunk, blen_drop in Hbx. lia.
+      + unfold rs_m in *. cbn [rs_q rs_cur]. rewrite Ec1 in *. lia.
+  Qed.
+
+  Lemma r_do_output_fuel st maxb scr extra :
+    rs_wf st ->
+    r_out xform (extra + S (S (length scr + length (rs_q st)))) st maxb scr [] = r_do_output xform st maxb scr.
+  Proof.
+    intros Hwf. unfold r_do_output. induction extra as [|e IH]; [reflexivity|].
+    cbn [plus]. rewrite <- r_out_fuel_enough; auto.
+    unfold rs_m. destruct (rs_cur st); lia.
+  Qed.
 End RawSend.
+
+(* ---------------------------------------------------------------------- r_trunc *)
+Lemma r_trunc_ne m : Forall nonempty (r_trunc m).
+Proof.
+  induction m as [|c t IH]; cbn; [constructor|].
+  destruct c; [constructor|]. constructor; [discriminate|exact IH].
+Qed.
+
+Lemma r_trunc_id m : Forall nonempty m -> r_trunc m = m.
+Proof.
+  induction 1 as [|c t Hc _ IH]; cbn; auto.
+  destruct c; [contradiction Hc; reflexivity|]. now rewrite IH.
+Qed.
+
+(* ---------------------------------------------------------------------- receiver *)
+Definition rr_pend (st : rrecv) : bytes := match rr_cur st with Some c => c | None => [] end.
+Definition flat_chunks (o : list (list bytes)) : bytes := concat (map (@concat N) o).
+
+Lemma flat_chunks_app a b : flat_chunks (a ++ b) = flat_chunks a ++ flat_chunks b.
+Proof. unfold flat_chunks. now rewrite map_app, concat_app. Qed.
+
+Lemma r_in_min_unfold scr minc st maxb pipe outs :
+  r_in_min scr minc st maxb pipe outs =
+  let '(x, pipe', _) := io_read (N.min maxb (minc - blen (rr_pend st))) scr pipe in
+  if 0 <? blen x then
+    if blen (rr_pend st ++ x) =? minc then
+      match scr with
+      | [] => (mkRR None, outs ++ [[rr_pend st ++ x]], pipe')
+      | _ :: scr' => r_in_min scr' minc (mkRR None) (maxb - blen x) pipe' (outs ++ [[rr_pend st ++ x]])
+      end
+    else (mkRR (Some (rr_pend st ++ x)), outs, pipe')
+  else (mkRR (Some (rr_pend st)), outs, pipe').
+Proof. destruct scr; reflexivity. Qed.
+
+Lemma r_in_min_spec scr : forall minc st maxb pipe outs st' outs' pipe',
+  r_in_min scr minc st maxb pipe outs = (st', outs', pipe') ->
+  exists x o, pipe = x ++ pipe' /\ outs' = outs ++ o /\
+              rr_pend st ++ x = flat_chunks o ++ rr_pend st'.
+Proof.
+  induction scr as [|k scr IH]; intros minc st maxb pipe outs st' outs' pipe' H;
+    rewrite r_in_min_unfold in H;
+    destruct (io_read (N.min maxb (minc - blen (rr_pend st))) _ pipe) as [[x p1] s1] eqn:Er;
+    apply io_read_spec in Er; destruct Er as (Hp & Hb & _);
+    (destruct (0 <? blen x) eqn:Ex;
+     [ destruct (blen (rr_pend st ++ x) =? minc) eqn:Efull
+     | inversion H; subst; clear H; assert (x = []) by (apply blen_0; lia); subst x;
+       exists [], []; rewrite !app_nil_r; repeat split; auto ]).
+  - inversion H; subst; clear H. exists x, [[rr_pend st ++ x]]. repeat split; auto.
+    unfold flat_chunks; cbn. now rewrite !app_nil_r.
+  - inversion H; subst; clear H. exists x, []. rewrite app_nil_r. repeat split; auto.
+  - apply IH in H. destruct H as (y & o & Hp1 & Ho & Hpend).
+    exists (x ++ y), ([[rr_pend st ++ x]] ++ o). repeat split.
+    + rewrite Hp, Hp1. now rewrite app_assoc.
+    + rewrite Ho. now rewrite <- app_assoc.
+    + rewrite flat_chunks_app. cbn in Hpend. rewrite <- app_assoc, <- Hpend.
+      unfold flat_chunks; cbn. now rewrite !app_nil_r, <- app_assoc.
+  - inversion H; subst; clear H. exists x, []. rewrite app_nil_r. repeat split; auto.
+Qed.
+
+Lemma r_in_min_pend scr : forall minc st maxb pipe outs st' outs' pipe',
+  0 < minc -> blen (rr_pend st) < minc ->
+  r_in_min scr minc st maxb pipe outs = (st', outs', pipe') -> blen (rr_pend st') < minc.
+Proof.
+  induction scr as [|k scr IH]; intros minc st maxb pipe outs st' outs' pipe' Hm Hlt H;
+    rewrite r_in_min_unfold in H;
+    destruct (io_read (N.min maxb (minc - blen (rr_pend st))) _ pipe) as [[x p1] s1] eqn:Er;
+    apply io_read_spec in Er; destruct Er as (Hp & Hb & _);
+    (destruct (0 <? blen x) eqn:Ex;
+     [ destruct (blen (rr_pend st ++ x) =? minc) eqn:Efull
+     | inversion H; subst; clear H; cbn; exact Hlt ]).
+  - inversion H; subst; clear H; cbn; auto.
+  - inversion H; subst; clear H. cbn. rewrite blen_app in *. lia.
+  - apply IH in H; auto.
+  - inversion H; subst; clear H. cbn. rewrite blen_app in *. lia.
+Qed.
+
+Lemma r_do_input_spec minc maxc st maxb scr pipe st' o pipe' :
+  (minc = 0 -> rr_pend st = []) ->
+  r_do_input minc maxc st maxb scr pipe = (st', o, pipe') ->
+  exists x, pipe = x ++ pipe' /\ rr_pend st ++ x = flat_chunks o ++ rr_pend st'.
+Proof.
+  intros H0. unfold r_do_input. destruct (0 <? minc) eqn:Em.
+  - intros H. apply r_in_min_spec in H. destruct H as (x & o' & Hp & Ho & Hpend).
+    cbn in Ho. subst o'. eauto.
+  - destruct (io_read (N.min (r_scratch minc maxc) maxb) scr pipe) as [[x p1] s1] eqn:Er.
+    intros H. inversion H; subst; clear H.
+    apply io_read_spec in Er. destruct Er as (Hp & Hb & _).
+    exists x. split; auto. rewrite H0 by lia.
+    destruct (0 <? blen x) eqn:Ex.
+    + unfold flat_chunks; cbn. now rewrite !app_nil_r.
+    + assert (x = []) by (apply blen_0; lia). subst x. reflexivity.
+Qed.
+
+Lemma r_do_input_progress minc maxc st maxb scr pipe st' o pipe' :
+  blen (rr_pend st) < minc \/ minc = 0 ->
+  r_do_input minc maxc st maxb scr pipe = (st', o, pipe') ->
+  pipe <> [] -> 1 <= maxb -> 1 <= io_k scr -> (length pipe' < length pipe)%nat.
+Proof.
+  intros Hpend H Hne Hm Hk.
+  assert (Hpp : 0 < blen pipe) by (apply blen_pos; auto).
+  assert (Hgoal : forall x, pipe = x ++ pipe' -> 0 < blen x -> (length pipe' < length pipe)%nat).
+  { intros x -> Hx. rewrite app_length. unfold blen in Hx. lia. }
+  unfold r_do_input in H. destruct (0 <? minc) eqn:Em.
+  - rewrite r_in_min_unfold in H.
+    destruct (io_read (N.min maxb (minc - blen (rr_pend st))) scr pipe) as [[x p1] s1] eqn:Er.
+    apply io_read_spec in Er. destruct Er as (Hp & Hb & _).
+    assert (Hx : 0 < blen x) by lia.
+    assert (E : (0 <? blen x) = true) by lia. rewrite E in H.
+    destruct (blen (rr_pend st ++ x) =? minc).
+    + destruct scr as [|k scr]; [inversion H; subst; eapply Hgoal; eauto|].
+      apply r_in_min_spec in H. destruct H as (y & o' & Hp1 & _ & _).
+      apply (Hgoal (x ++ y)).
+      * rewrite Hp, Hp1. now rewrite app_assoc.
+      * rewrite blen_app. lia.
+    + inversion H; subst. eapply Hgoal; eauto.
+  - destruct (io_read (N.min (r_scratch minc maxc) maxb) scr pipe) as [[x p1] s1] eqn:Er.
+    inversion H; subst; clear H.
+    apply io_read_spec in Er. destruct Er as (Hp & Hb & _).
+    apply (Hgoal x); auto.
+    assert (1 <= r_scratch minc maxc) by (unfold r_scratch; change c_raw_max_scratch with 8192; lia).
+    lia.
+Qed.
+
+(* ---------------------------------------------------------------------- the raw gateway, end to end *)
+Section RawE2E.
+  Variables minc maxc : N.
+
+  Definition raw_wfm (m : list bytes) : Prop := Forall nonempty m.        (* chunks are non-empty *)
+  Definition raw_wire (ms : list (list bytes)) : bytes := rs_qbytes r_trunc ms.
+  Definition raw_flat_m (ms : list (list bytes)) : bytes := flat_chunks ms.
+  Definition raw_SI (st : rsend) (ms : list (list bytes)) : Prop := rs_wf st.
+  Definition raw_RRel (r : rrecv) (c : bytes) (o : list (list bytes)) : Prop :=
+    flat_chunks o ++ rr_pend r = c /\ (blen (rr_pend r) < minc \/ (minc = 0 /\ rr_pend r = [])).
+
+  Lemma raw_wire_flat ms : Forall raw_wfm ms -> raw_wire ms = raw_flat_m ms.
+  Proof.
+    unfold raw_wire, raw_flat_m, rs_qbytes, flat_chunks.
+    induction 1 as [|m t Hm _ IH]; cbn; auto. rewrite IH, (r_trunc_id _ Hm). reflexivity.
+  Qed.
+
+  Definition raw_sys0 := @sys0 (list bytes) (list bytes) rsend rrecv rs_init rr_init.
+  Notation raw_run := (sys_run rs_queue raw_do_output (r_do_input minc maxc)).
+
+  Lemma raw_S_init : raw_SI rs_init [] /\ rs_rem r_trunc rs_init = [].
+  Proof. split; [exact I|reflexivity]. Qed.
+
+  Lemma raw_S_queue s ms m :
+    Forall raw_wfm ms -> raw_wfm m -> raw_SI s ms ->
+    raw_SI (rs_queue s m) (ms ++ [m]) /\
+    exists d, rs_rem r_trunc (rs_queue s m) = rs_rem r_trunc s ++ d /\ raw_wire (ms ++ [m]) = raw_wire ms ++ d.
+  Proof.
+    intros _ _ Hs. split.
+    - unfold raw_SI, rs_wf in *. cbn. exact Hs.
+    - exists (concat (r_trunc m)). split.
+      + unfold rs_rem. cbn [rs_queue rs_cur rs_off rs_idx rs_q]. rewrite rs_qbytes_app, app_assoc.
+        unfold rs_qbytes at 3. cbn. now rewrite app_nil_r.
+      + unfold raw_wire. rewrite rs_qbytes_app. unfold rs_qbytes at 3. cbn. now rewrite app_nil_r.
+  Qed.
+
+  Lemma raw_S_out s ms maxb scr s' x :
+    Forall raw_wfm ms -> raw_SI s ms -> raw_do_output s maxb scr = (s', x) ->
+    raw_SI s' ms /\ rs_rem r_trunc s = x ++ rs_rem r_trunc s'.
+  Proof. intros _ Hs H. eapply r_do_output_spec; eauto. apply r_trunc_ne. Qed.
+
+  Lemma raw_R_init : raw_RRel rr_init [] [].
+  Proof.
+    split; [reflexivity|]. cbn. destruct (N.eq_dec minc 0); [right; auto|left; lia].
+  Qed.
+
+  Lemma raw_R_in (ms : list (list bytes)) r c o maxb scr pipe (rest : bytes) r' o' pipe' :
+    Forall raw_wfm ms -> raw_wire ms = c ++ pipe ++ rest -> raw_RRel r c o ->
+    r_do_input minc maxc r maxb scr pipe = (r', o', pipe') ->
+    exists x, pipe = x ++ pipe' /\ raw_RRel r' (c ++ x) (o ++ o').
+  Proof.
+    intros _ _ [Hc Hp] H.
+    assert (H0 : minc = 0 -> rr_pend r = []) by (intros E0; destruct Hp as [Hp|[_ Hp]]; [lia|auto]).
+    destruct (r_do_input_spec _ _ _ _ _ _ _ _ _ H0 H) as (x & Hx & Hpend).
+    exists x. split; auto. split.
+    - rewrite flat_chunks_app, <- app_assoc, <- Hpend, app_assoc, Hc. reflexivity.
+    - unfold r_do_input in H. destruct (0 <? minc) eqn:Em.
+      + left. destruct Hp as [Hp|[Hp _]]; [|lia].
+        eapply r_in_min_pend; eauto. lia.
+      + right. destruct Hp as [Hp|[Hp Hq]]; [lia|]. split; auto.
+        destruct (io_read (N.min (r_scratch minc maxc) maxb) scr pipe) as [[y p1] s1].
+        inversion H; subst. exact Hq.
+  Qed.
+
+  Lemma raw_decode_prefix ms (r : rrecv) c o (rest : bytes) :
+    Forall raw_wfm ms -> raw_wire ms = c ++ rest -> raw_RRel r c o ->
+    exists tl, raw_flat_m ms = flat_chunks o ++ tl.
+  Proof.
+    intros Hwf Hw [Hc _]. rewrite <- (raw_wire_flat ms Hwf). rewrite Hw, <- Hc.
+    exists (rr_pend r ++ rest). now rewrite app_assoc.
+  Qed.
+
+  Lemma raw_decode_complete ms r o :
+    Forall raw_wfm ms -> raw_RRel r (raw_wire ms) o -> flat_chunks o ++ rr_pend r = raw_flat_m ms.
+  Proof. intros Hwf [Hc _]. rewrite <- (raw_wire_flat ms Hwf). exact Hc. Qed.
+
+  (* Every event list: the bytes delivered so far are a prefix of the bytes queued so far. *)
+  Theorem raw_prefix_safety (evs : list (event (list bytes))) :
+    Forall (ev_wf raw_wfm) evs ->
+    exists tl, flat_chunks (ev_msgs evs) = flat_chunks (s_dlv (raw_run raw_sys0 evs)) ++ tl.
+  Proof.
+    apply (prefix_safety rs_queue raw_do_output (r_do_input minc maxc) rs_init rr_init raw_wfm raw_wire
+             raw_flat_m flat_chunks (rs_rem r_trunc) raw_SI raw_RRel);
+      [reflexivity | exact raw_S_init | exact raw_S_queue | exact raw_S_out | exact raw_R_init
+      | exact raw_R_in | exact raw_decode_prefix].
+  Qed.
+
+  (* Once the sender has nothing left to write and nothing is in flight: delivered ++ the partial
+     chunk the receiver is still assembling (always [] in immediate-forward mode) = queued. *)
+  Theorem raw_completeness (evs : list (event (list bytes))) :
+    Forall (ev_wf raw_wfm) evs ->
+    rs_rem r_trunc (s_snd (raw_run raw_sys0 evs)) = [] -> s_pipe (raw_run raw_sys0 evs) = [] ->
+    flat_chunks (s_dlv (raw_run raw_sys0 evs)) ++ rr_pend (s_rcv (raw_run raw_sys0 evs)) = flat_chunks (ev_msgs evs).
+  Proof.
+    apply (completeness rs_queue raw_do_output (r_do_input minc maxc) rs_init rr_init raw_wfm raw_wire
+             raw_flat_m flat_chunks rr_pend (rs_rem r_trunc) raw_SI raw_RRel);
+      [reflexivity | exact raw_S_init | exact raw_S_queue | exact raw_S_out | exact raw_R_init
+      | exact raw_R_in | exact raw_decode_complete].
+  Qed.
+
+  Theorem raw_fair_completion (evs : list (event (list bytes))) (rs : list (list (event (list bytes)))) :
+    Forall (ev_wf raw_wfm) evs -> Forall round rs ->
+    (measure (rs_rem r_trunc) (fun _ => 0%nat) (raw_run raw_sys0 evs) <= length rs)%nat ->
+    let st := raw_run raw_sys0 (evs ++ concat rs) in
+    quiet (rs_rem r_trunc) st /\ flat_chunks (s_dlv st) ++ rr_pend (s_rcv st) = flat_chunks (ev_msgs evs).
+  Proof.
+    apply (fair_completion rs_queue raw_do_output (r_do_input minc maxc) rs_init rr_init raw_wfm raw_wire
+             raw_flat_m flat_chunks rr_pend (rs_rem r_trunc) raw_SI raw_RRel);
+      [reflexivity | exact raw_S_init | exact raw_S_queue | exact raw_S_out | exact raw_R_init
+      | exact raw_R_in | exact raw_decode_complete | | ].
+    - intros s ms maxb scr s' x _ Hs H. split; [lia|]. intros Hr Hm Hk. left.
+      exact (r_do_output_progress r_trunc r_trunc_ne s maxb scr s' x Hs Hr Hm Hk H).
+    - intros ms r c o maxb scr pipe rest r' o' pipe' _ _ [_ Hp] H Hne Hm Hk.
+      apply (r_do_input_progress minc maxc r maxb scr pipe r' o' pipe'); auto.
+      destruct Hp as [Hp|[Hp _]]; auto.
+  Qed.
+End RawE2E.
